@@ -110,15 +110,26 @@ Fixpoint has_prefix (p b : str) : bool :=
   end.
 Definition looks_like_junit (b : str) : bool := existsb (fun p => has_prefix p b) junit_prefixes.
 
-(* one results file, by the format its bytes select; DBad = empty file or a parser error *)
-Inductive datum := DXml (d : list xtop) | DGo (t : list (str * gores)) | DBad.
+(* one results file, by the format its bytes select; DBad = non-empty bytes on which the selected parser returns
+   an error; DEmpty = a file of length zero *)
+Inductive datum := DXml (d : list xtop) | DGo (t : list (str * gores)) | DBad | DEmpty.
+Definition datum_empty (d : datum) : bool := match d with DEmpty => true | _ => false end.
+Definition datum_junit (d : datum) : bool := match d with DXml _ => true | _ => false end.
+(* parseTestResultDatum: the if-chain is Gen.datum_route (regenerated from the Go source) *)
 Definition parse_datum (d : datum) : option suite :=
-  match d with DXml x => Some (parse_xml x) | DGo t => Some (parse_go t) | DBad => None end.
-(* parseTestResults: suite.Collapse(newSuite) per datum, first error wins *)
+  datum_route (datum_empty d) (datum_junit d)
+    None
+    (match d with DXml x => Some (parse_xml x) | _ => None end)
+    (match d with DGo t => Some (parse_go t) | _ => None end).
+(* parseTestResults: the loop body is Gen.results_step (regenerated, statement by statement, from the Go source):
+   suite.Collapse(newSuite) per datum, first error wins *)
 Fixpoint parse_results (ds : list datum) (acc : suite) : option suite :=
   match ds with
   | [] => Some acc
-  | d :: r => match parse_datum d with None => None | Some x => parse_results r (collapse acc x) end
+  | d :: r => match results_step datum_empty parse_datum collapse acc d with
+              | None => None
+              | Some a => parse_results r a
+              end
   end.
 
 (* ---- parseTestOutput ---- *)
@@ -211,7 +222,53 @@ Definition second_report (name : str) (no_output : bool) (n : nat) (atts : list 
   | None => (first_report name no_output n atts, false)
   end.
 
+(* ---- a history of invocations of `plz test` on one unchanged target, with and without test arguments ---- *)
+(* one invocation: were arguments given (`plz test //:t -- args`), and the attempts the test command executes under
+   these arguments (a test runner given arguments runs the selected cases only) *)
+Record inv := mkInv { i_args : bool; i_atts : list attempt }.
+(* what survives between invocations: the stored results file plz-out/bin/<pkg>/.test_results_<name> (stamped with
+   the runtime hash, which does not depend on the arguments) and the entry of the directory cache under that hash *)
+Record tstate := mkT { t_out : option (list datum); t_cache : option (list datum) }.
+Definition t_init := mkT None None.
+
+(* run the test: RemoveTestOutputs, doFlakeRun, and - when every case succeeded - cacheOutputFiles with its guards
+   Gen.cache_refused (regenerated from the Go source), which moves the results file and stores it in the cache *)
+Definition run_inv (name : str) (no_output : bool) (n : nat) (st : tstate) (i : inv) : (suite * bool) * tstate :=
+  let r := first_report name no_output n (i_atts i) in
+  let st' :=
+    if all_succeeded r && negb (cache_refused (i_args i) (failures r))
+    then let ds := stored_of (last (executed_atts name no_output n (i_atts i)) (mkAttempt false [])) in
+         mkT (Some ds) (Some ds)
+    else mkT None (t_cache st) in
+  ((r, false), st').
+
+(* test(): needToRun (leading guards Gen.need_run_forced; then the stored file, then the cache), cachedTestResults
+   (a parse error or a case that did not succeed cleans the cache entry and runs the test), else run *)
+Definition invoke (name : str) (no_output : bool) (n : nat) (st : tstate) (i : inv) : (suite * bool) * tstate :=
+  if need_run_forced false (i_args i) then run_inv name no_output n st i
+  else
+    let found := match t_out st with Some ds => Some ds | None => t_cache st end in
+    match found with
+    | Some ds => match cached_results ds with
+                 | Some r => ((r, true), mkT (Some ds) (t_cache st))
+                 | None => run_inv name no_output n (mkT (Some ds) None) i
+                 end
+    | None => run_inv name no_output n st i
+    end.
+
+Fixpoint run_history (name : str) (no_output : bool) (n : nat) (st : tstate) (h : list inv) : list (suite * bool) :=
+  match h with
+  | [] => []
+  | i :: r => let x := invoke name no_output n st i in fst x :: run_history name no_output n (snd x) r
+  end.
+
 (* ---- correspondence cases ---- *)
+Fixpoint all2 {A B} (p : A -> B -> bool) (a : list A) (b : list B) : bool :=
+  match a, b with
+  | [], [] => true
+  | x :: a', y :: b' => p x y && all2 p a' b'
+  | _, _ => false
+  end.
 Definition exec_eqb (a b : exec) : bool :=
   Bool.eqb (e_fail a) (e_fail b) && Bool.eqb (e_err a) (e_err b) && Bool.eqb (e_skip a) (e_skip b).
 Definition case_eqb (a b : tcase) : bool :=
@@ -231,7 +288,8 @@ Inductive case :=
 | CE2E (name : str) (n : nat) (atts : list attempt) (cnt : list N) (passed : bool)
 | CStored (t : rtree) (obs : option suite)
 | CTwice (name : str) (no_output : bool) (n : nat) (atts : list attempt)
-         (cnt1 : list N) (passed1 : bool) (cnt2 : list N) (passed2 : bool) (cached2 : bool).
+         (cnt1 : list N) (passed1 : bool) (cnt2 : list N) (passed2 : bool) (cached2 : bool)
+| CHist (name : str) (no_output : bool) (n : nat) (h : list inv) (obs : list (list N * bool * bool)).
 
 Definition check (c : case) : bool :=
   match c with
@@ -251,4 +309,9 @@ Definition check (c : case) : bool :=
       let r2 := second_report name no n atts in
       list_eqb N.eqb (counters r1) cnt1 && Bool.eqb (all_succeeded r1) ok1
       && list_eqb N.eqb (counters (fst r2)) cnt2 && Bool.eqb (all_succeeded (fst r2)) ok2 && Bool.eqb (snd r2) cached2
+  | CHist name no n h obs =>
+      all2 (fun (m : suite * bool) (o : list N * bool * bool) =>
+                  list_eqb N.eqb (counters (fst m)) (fst (fst o)) && Bool.eqb (all_succeeded (fst m)) (snd (fst o))
+                  && Bool.eqb (snd m) (snd o))
+               (run_history name no n t_init h) obs
   end.
